@@ -97,6 +97,13 @@ def _side():
 # ==========================================================================
 
 
+def _trials(shuffled):
+    """replays of shuffling loaders are repeated over several seeds (the solver's permutation is abstract)"""
+    for k in range(12 if shuffled else 1):
+        torch.manual_seed(k)
+        yield k
+
+
 def _real_deeponet_loader(layout, Nb, Nt, bb, bt, shb, sht):
     branch = torch.arange(Nb, dtype=torch.float64).reshape(Nb, 1, 1)
     out = (1000.0 * torch.arange(Nb, dtype=torch.float64).reshape(Nb, 1) + torch.arange(Nt, dtype=torch.float64).reshape(1, Nt)).reshape(Nb, Nt, 1)
@@ -179,12 +186,15 @@ def deeponet_item_case(B, layout, shb, sht):
         bb, bt = SI.bvint(env, "bs_b", 1, B), SI.bvint(env, "bs_t", 1, B)
         idx = SI.bvint(env, "idx", 0, K - 1)
         if not env.symbolic:
-            loader = _real_deeponet_loader(layout, Nb, Nt, bb, bt, shb, sht)
-            batches = list(loader)
-            fids, lids, rows_ok, cols_ok, trunk_ok = _decode_deeponet(layout, batches[idx])
-            return dict(out_rows_are_branch_rows=rows_ok, out_cols_are_trunk_rows=cols_ok, trunk_rows_are_branch_rows=trunk_ok,
-                        branch_batch_not_larger_than_requested=len(fids) <= bb, trunk_batch_not_larger_than_requested=len(lids) <= bt,
-                        indices_in_range=True, standin_side_conditions=True, batch=(fids, lids), **{EXACT: True}, n_batches=len(batches))
+            res = None
+            for _ in _trials(shb or sht):
+                batches = list(_real_deeponet_loader(layout, Nb, Nt, bb, bt, shb, sht))
+                fids, lids, rows_ok, cols_ok, trunk_ok = _decode_deeponet(layout, batches[idx])
+                r = dict(out_rows_are_branch_rows=rows_ok, out_cols_are_trunk_rows=cols_ok, trunk_rows_are_branch_rows=trunk_ok,
+                         branch_batch_not_larger_than_requested=len(fids) <= bb, trunk_batch_not_larger_than_requested=len(lids) <= bt,
+                         indices_in_range=True, standin_side_conditions=True, **{EXACT: True})
+                res = r if res is None else {k: res[k] and r[k] for k in r}
+            return dict(res, batch=(fids, lids), n_batches=len(batches))
         SI.LCM_BOUND[0] = B
         with SI.shadow_globals(DM):
             ds = _sym_deeponet(layout, Nb, Nt, bb, bt, shb, sht)
@@ -313,10 +323,14 @@ def points_item_case(B, shuffle, drop_last):
         N, bs = SI.bvint(env, "N", 1, B), SI.bvint(env, "bs", 1, B)
         idx = SI.bvint(env, "idx", 0, B - 1)
         if not env.symbolic:
-            batches = list(_real_points_loader(N, bs, shuffle, drop_last))
-            ids, ok = _decode_points(batches[idx])
-            return dict(tuple_members_hold_same_rows=ok, batch_not_larger_than_requested=len(ids) <= bs, indices_in_range=True,
-                        standin_side_conditions=True, batch=ids, **{EXACT: True})
+            res = None
+            for _ in _trials(shuffle):
+                batches = list(_real_points_loader(N, bs, shuffle, drop_last))
+                ids, ok = _decode_points(batches[idx])
+                r = dict(tuple_members_hold_same_rows=ok, batch_not_larger_than_requested=len(ids) <= bs, indices_in_range=True,
+                         standin_side_conditions=True, **{EXACT: True})
+                res = r if res is None else {k: res[k] and r[k] for k in r}
+            return dict(res, batch=ids)
         with SI.shadow_globals(PM):
             ds = _sym_points(N, bs, shuffle, drop_last)
             n = ds.__len__()
@@ -384,9 +398,11 @@ def points_coverage_case(B, shuffle, drop_last):
 # ==========================================================================
 
 
-TOL = 1e-6  # route B equalities are asked within TOL: the claims are homogeneous in the data (scaling all cells scales both
-# sides), so "within TOL for all data" is the same statement as exact equality, but a counterexample differs by more than
-# TOL and therefore survives the float64 replay
+def _tol(L):
+    """Route B equalities are asked within a tolerance: the claims are homogeneous in the data (scaling all cells scales
+    both sides), so "within tol for all data" is the same statement as exact equality.  The solver has to exhibit a
+    difference > 1e-3, the float64 replay accepts only <= 1e-6: every solver counterexample survives the replay."""
+    return 1e-3 if L.symbolic else 1e-6
 
 
 def _rows_eq(L, a, b):
@@ -394,7 +410,7 @@ def _rows_eq(L, a, b):
     fa, fb = _flatten(a), _flatten(b)
     if len(fa) != len(fb):
         return False
-    return L.And([L.eq(x, y, TOL) for x, y in zip(fa, fb)])
+    return L.And([L.eq(x, y, _tol(L)) for x, y in zip(fa, fb)])
 
 
 def _flatten(a):
@@ -527,9 +543,9 @@ def condition_case(N, bs, norm, drop_last=False, shuffle=False, root=1.0):
         if o["shape"] == [1]:
             v = o["loss"][0]
             if root == 1.0:
-                yield "aggregates_every_batch_exactly_once", L.eq(v, o["want"], TOL)
+                yield "aggregates_every_batch_exactly_once", L.eq(v, o["want"], _tol(L))
             else:
-                yield "aggregates_every_batch_exactly_once", L.And(L.ge(v, 0), L.eq(v * v, o["want"], TOL))
+                yield "aggregates_every_batch_exactly_once", L.And(L.ge(v, 0), L.eq(v * v, o["want"], _tol(L)))
 
     return Case(name, body, goals, family="B/condition/points", params=dict(N=N, bs=bs, norm=str(norm), drop_last=drop_last, shuffle=shuffle, root=root),
                 max_paths=40, max_forks_per_site=40)
@@ -560,7 +576,7 @@ def condition_iter_case(N, bs, calls):
     def goals(o, L, env):
         nb = len(o["want"])
         for k, l in enumerate(o["losses"]):
-            yield "call_uses_next_batch[call%d]" % k, L.eq(l[0], o["want"][k % nb], TOL)
+            yield "call_uses_next_batch[call%d]" % k, L.eq(l[0], o["want"][k % nb], _tol(L))
 
     return Case(name, body, goals, family="B/condition/points_iterate", params=dict(N=N, bs=bs, calls=calls))
 
@@ -619,7 +635,7 @@ def deeponet_condition_case(Nb, Nt, bb, bt, norm):
         yield "one_pass_is_a_partition", o["n"] == o["blocks"]
         yield "one_loss_value", o["shape"] == [1]
         if o["shape"] == [1]:
-            yield "aggregates_every_batch_exactly_once", L.eq(o["loss"][0], o["want"], TOL)
+            yield "aggregates_every_batch_exactly_once", L.eq(o["loss"][0], o["want"], _tol(L))
 
     return Case(name, body, goals, family="B/condition/deeponet", params=dict(Nb=Nb, Nt=Nt, bs_b=bb, bs_t=bt, norm=str(norm)))
 
